@@ -34,7 +34,7 @@ WITNESS = {"n": 1, "m": 10, "lim": 1000, "eps": 0.01, "r": 2.5, "lower": [0.0], 
            "refine": False}
 RULE = ("exact-minimum families (pwlsum, pwlmax, cone, linear, const, needle for N=1) from objectives.gen_spec(exact_only), 45% "
         "of them rescaled so that K_N*L is spread around r (flat and nearly-reliable cases in every dimension), 8% perturbations "
-        "of the known-finding witness (a thin deep spike under the last trial point, built adaptively), 8% flat ramps with narrow wells (2L <= r, all slopes seen far below 1), 15% 1-D sawtooth functions with 2L = r (least slack); random box, N=1..5, density, r in (1.05,6], eps "
+        "of the known-finding witness (a thin deep spike under the last trial point, built adaptively), 15% of the generic cases as a RESUMED search (Solve with itersLimit in {1..30}, then the limit is raised in place and the search continued), 8% flat ramps with narrow wells (2L <= r, all slopes seen far below 1), 15% 1-D sawtooth functions with 2L = r (least slack); random box, N=1..5, density, r in (1.05,6], eps "
         "per dimension so that the accuracy stop is reachable within itersLimit in {400,1000,2500}. explored = runs; a run is "
         "distinct by its parameter set and non-trivial if it stopped by accuracy AND satisfied the reliability condition (only "
         "then the statement claims anything); stats split them into flat (K_N*L<=r), reliable by M, unreliable, no accuracy stop.")
@@ -75,10 +75,18 @@ def check_case(case):
         info["class"] = "no-exact-minimum"
         return vs, info
     fmin, L = ex
-    run = oc.Run(case)
+    if case.get("resume"):
+        # a resumed search: the solver is BUILT with a small budget, Solve stops on it, then itersLimit of the same parameters
+        # object is raised and the search continued
+        run = oc.Run(dict(case, lim=case["resume"]), cap=4 * max(case["lim"], 16) + 64)
+    else:
+        run = oc.Run(case)
     Mb = None
     err = None
     try:
+        if case.get("resume"):
+            run.solve()
+            run.solver.parameters.itersLimit = case["lim"]
         while not run.stopped():
             Mb = float(run.solver.method.M[0])
             if not run.iterate(1):
@@ -203,7 +211,10 @@ def gen(r):
         if L > 0:
             target = rr * r.choice([0.2, 0.5, 0.9, 1.0, 1.0, 1.5, 2.0, 3.0]) / oc.K_N(n)
             spec = oc.scale_spec(spec, target / L)
-    return oc.gen_case(r, n=n, spec=spec, eps=r.choice(EPS_BY_DIM[n]), lim=r.choice([400, 1000, 2500]), rr=rr)
+    case = oc.gen_case(r, n=n, spec=spec, eps=r.choice(EPS_BY_DIM[n]), lim=r.choice([400, 1000, 2500]), rr=rr)
+    if r.random() < 0.15:
+        case["resume"] = r.choice([1, 2, 3, 5, 8, 13, 30])
+    return case
 
 
 def run(tier, r):
